@@ -827,6 +827,89 @@ h_crle_roundtrip(void)
     H4V_COVER(w1 > 0 && w2 > w1 && n > w2 && r1 > 0 && r2 > r1 && n > r2, "three non-empty writes and reads");
     H4V_CANARY("crle_roundtrip end");
 }
+
+/* ---- C05 (ext): coder restart.  Encode stream A, seek back to 0 on a write access (HCPcrle_seek: HCIcrle_term flushes
+   A's pending bytes, HCIcrle_init restarts the coder -- "every (re)start of coding from offset 0 leaves the run-detection
+   state empty"), encode stream B, flush: the packets emitted AFTER the restart must decode to exactly B, whatever A
+   ended with (in particular when B starts with two bytes equal to A's last byte).  A, B of at most RS_N bytes. ---- */
+#ifndef RS_N
+#define RS_N 3
+#endif
+void
+h_crle_restart(void)
+{
+    havoc_ghosts();
+    g_io_fail_at = 0xffffffffu; g_io_n = 0;
+    g_wst = g_rst = 0;
+    g_emit = g_dpos = 0;
+    g_got = g_have = 0;
+    H4V_ASSUME(g_k >= 0);
+    uint8 *store = malloc(2 * RS_N + 4);
+    H4V_ASSUME(store != NULL);
+    g_disk     = store;
+    g_disk_cap = 2 * RS_N + 4;
+    g_disk_n = g_dp = 0;
+
+    compinfo_t *info = alloc_info();
+    accrec_t   *ar   = malloc(sizeof(accrec_t));
+    H4V_ASSUME(ar != NULL);
+    info->aid        = g_aid;
+    ar->special_info = info;
+    ar->access       = DFACC_RDWR;
+    /* whatever an earlier use left in the coder state (named inputs, so that the replay sees the same) */
+    H4V_ND(unsigned, junk_last);
+    H4V_ND(unsigned, junk_second);
+    H4V_ND(int, junk_state);
+    RF(info, last_byte)   = junk_last;
+    RF(info, second_byte) = junk_second;
+    RF(info, rle_state)   = junk_state;
+
+    H4V_ND(int32, na);
+    H4V_ND(int32, nb);
+    H4V_ASSUME(0 <= na && na <= RS_N && 0 <= nb && nb <= RS_N);
+    uint8 *sa = malloc(8);
+    uint8 *sb = malloc(8);
+    H4V_ASSUME(sa != NULL && sb != NULL && RS_N <= 8);
+    ND_BYTES8(sa, RS_N, sa);
+    ND_BYTES8(sb, RS_N, sb);
+
+    int32 ok = HCIcrle_init(ar);
+    H4V_CHECK(ok == SUCCEED, "init for write");
+    ok = HCIcrle_encode(info, na, sa);
+    H4V_CHECK(ok == SUCCEED, "encode A");
+    int pend0 = RF(info, rle_state) != RLE_INIT;
+
+    /* the backward-seek branch of HCPcrle_seek on a write access (its contract crle_seek: pending encoder state is
+       flushed by HCIcrle_term, then exactly one HCIcrle_init; the real function's 8 KB skip buffer is kept out of here) */
+    if (pend0) {
+        ok = HCIcrle_term(info);
+        H4V_CHECK(ok == SUCCEED, "term before the restart");
+    }
+    ok = HCIcrle_init(ar);
+    H4V_CHECK(ok == SUCCEED, "restart at 0");
+    H4V_CHECK(RF(info, rle_state) == RLE_INIT && RF(info, last_byte) == H4V_NIL && RF(info, second_byte) == H4V_NIL &&
+                  RF(info, buf_pos) == 0 && RF(info, offset) == 0,
+              "restart leaves the run-detection state empty");
+    H4V_CHECK(g_wst == 0 && g_emit == na, "A was flushed in complete packets before the restart (unless nothing was written)");
+    H4V_CHECK(na == 0 || g_dp == 0, "the compressed stream was rewound");
+    /* the packet stream restarts with the element */
+    g_emit = 0;
+    g_got  = 0;
+    g_exp  = (g_k < nb) ? sb[g_k < RS_N ? g_k : 0] : 0;
+
+    ok = HCIcrle_encode(info, nb, sb);
+    H4V_CHECK(ok == SUCCEED, "encode B");
+    if (RF(info, rle_state) != RLE_INIT) {
+        ok = HCIcrle_term(info);
+        H4V_CHECK(ok == SUCCEED, "term");
+    }
+    H4V_CHECK(g_wst == 0 && g_emit == nb, "after the restart complete packets decoding to exactly nb bytes are emitted");
+    if (g_k < nb)
+        H4V_CHECK(g_got == 1 && g_val == sb[g_k < RS_N ? g_k : 0], "the packets emitted after the restart decode to B");
+    H4V_COVER(na >= 2 && nb >= 2 && pend0 && sb[0] == sa[na >= 1 && na <= RS_N ? na - 1 : 0] && sb[1] == sb[0] && sa[na >= 2 ? na - 2 : 0] == sb[0],
+              "B starts with the two bytes A ended with");
+    H4V_CANARY("crle_restart end");
+}
 #ifdef DBG
 void h_dbg7(void) { havoc_ghosts(); g_io_fail_at = 0xffffffffu; g_wst = 0; g_emit = 0; g_rst = 0; g_dpos = 0; uint8 *store = malloc(16); g_disk = store; g_disk_cap = 16; g_disk_n = g_dp = 0;
   compinfo_t *info = alloc_info(); info->aid = g_aid; RF(info, rle_state) = RLE_INIT; RF(info, second_byte) = H4V_NIL; RF(info,offset)=0;
